@@ -29,6 +29,9 @@ mod transport;
 mod wire;
 
 pub fn config_name() -> &'static str {
+    if cfg!(feature = "real-rayon") {
+        return "real-rayon";
+    }
     match (cfg!(feature = "concurrent"), cfg!(feature = "async")) {
         (false, false) => "serial",
         (true, false) => "concurrent",
